@@ -46,6 +46,7 @@ pub enum Place {
     AfterSkippedRegion,
     ThreeCallsThenStmt,
     CharConst,
+    CharConstMacro,
     CharCase,
     CharExpr,
 }
@@ -123,7 +124,7 @@ pub fn cases(tier: Tier) -> Vec<LCase> {
     }
     for a in 0..n {
         if ATOMS[a].1.len() == 1 {
-            for p in [Place::CharConst, Place::CharCase, Place::CharExpr] {
+            for p in [Place::CharConst, Place::CharConstMacro, Place::CharCase, Place::CharExpr] {
                 v.push(LCase { place: p, atoms: vec![a] });
             }
         }
@@ -193,6 +194,8 @@ pub fn run(c: &LCase) -> CaseOutcome {
         Place::AfterSkippedRegion => format!("{}#ifdef UNDEF\nconst char *d1 = \"skip1\";\n#else\nconst char *d2 = \"kept\";\n#endif\n#if 0\nconst char *d3 = \"skip2\"; const char *d4 = \"skip3\";\n#endif\nconst char *s = \"{}\";\nconst char *t = \"zz\";\nvoid main() {{}}\n", pre, sp),
         Place::ThreeCallsThenStmt => format!("{}char r; char *q;\nchar k(char *p) {{ return p[Y]; }}\nvoid main() {{ r = k(\"{}\") + k(\"yy\") + k(\"xx\"); q = \"zz\"; }}\n", pre, sp),
         Place::CharConst => format!("{}const char c = '{}';\nvoid main() {{}}\n", pre, sp),
+        // a one-character macro named like the character (only meaningful for identifier characters)
+        Place::CharConstMacro => format!("{}#define {} 5\nconst char c = '{}';\nvoid main() {{}}\n", pre, if sp == "a" || sp == "M" { sp.as_str() } else { "zq" }, sp),
         Place::CharCase => format!("{}char a, r;\nvoid main() {{ switch (a) {{ case '{}': r = 1; }} }}\n", pre, sp),
         Place::CharExpr => format!("{}char r;\nvoid main() {{ r = '{}'; }}\n", pre, sp),
     };
@@ -310,10 +313,10 @@ pub fn run(c: &LCase) -> CaseOutcome {
                 }
             }
         }
-        Place::CharConst | Place::CharCase | Place::CharExpr => {
+        Place::CharConst | Place::CharConstMacro | Place::CharCase | Place::CharExpr => {
             let code = ATOMS[c.atoms[0]].1[0] as i32;
             match c.place {
-                Place::CharConst => {
+                Place::CharConst | Place::CharConstMacro => {
                     let got = rec.vars.iter().find(|v| v.name == "c").map(|v| v.def.clone());
                     if got != Some(Def::Value(Val::Int(code))) {
                         fail(&mut o, "wrong-char-code", format!("stored {:?}, expected {}", got, code));
@@ -374,6 +377,6 @@ impl Check for C09 {
         run(&self.cs(tier)[idx])
     }
     fn bounds(&self, tier: Tier) -> Value {
-        json!({"atoms": ATOMS.iter().map(|a| a.0).collect::<Vec<_>>(), "max_atoms": if tier == Tier::Quick { 2 } else { 3 }, "places": 18})
+        json!({"atoms": ATOMS.iter().map(|a| a.0).collect::<Vec<_>>(), "max_atoms": if tier == Tier::Quick { 2 } else { 3 }, "places": 19})
     }
 }
